@@ -734,7 +734,11 @@ class DoIPConnection:
         payload = AliveCheckResponse(
             SourceAddress=self.src_addr,
         )
-        await self.write_request_raw(hdr, payload)
+        # This is called from the reader task. It must not wait for self._mutex:
+        # the mutex is held by writers waiting for their ACK and by readers waiting
+        # for a frame, both of which only make progress when the reader task runs.
+        self.writer.write(hdr.pack() + payload.pack())
+        await self.writer.drain()
 
     async def close(self) -> None:
         logger.debug("Closing DoIP connection...")
